@@ -24,7 +24,10 @@ class Prop:
             "length 0..4, all of length 28..32 / 124..128 under 3-4 stems that fork at chosen bits, chains of intermediate lengths "
             "around byte and 64-bit boundaries), random wide prefixes, both families mixed, the 14-prefix x 2-peer alphabet of the "
             "model sweep embedded below a stem (all sequences up to length 1 quick / 2 thorough, random up to 7), long histories "
-            "(<=120 quick, <=300 thorough); reassignments, removes with the wrong peer, removes of absent prefixes, host bits set in "
+            "(<=120 quick, <=300 thorough), special address values (the same 32 bits as a.b.c.d/32, ::ffff:a.b.c.d/128, ::a.b.c.d/128 and "
+            "their /16-/112, /24-/120 parents with different owners, ::ffff:0:0/96, ::/0, 0.0.0.0/0, all-zero, all-ones, loopback, "
+            "link-local, multicast, NAT64, 6to4); every IPv4 probe address is also looked up in its 16-byte IPv4-mapped and "
+            "IPv4-compatible form (always in 'special', 15% elsewhere) and vice versa; reassignments, removes with the wrong peer, removes of absent prefixes, host bits set in "
             "30-50% of the prefixes given, remove-everything endings.  Observed after (a subset of) operations: Lookup on first/last/"
             "first-1/last+1/random-inside of every prefix mentioned, EntriesForPeer of every peer, pre-order dump of both roots; "
             "pointer consistency after every operation.  non-trivial = at least 3 operations, a node without owner (fork) existed "
